@@ -2,6 +2,7 @@ package stats
 
 import (
 	"fmt"
+	"math"
 	"math/rand"
 	"slices"
 )
@@ -17,7 +18,7 @@ func Dirichlet(factor float64, alpha ...float64) (sample []float64, err error) {
 	sample = make([]float64, len(alpha))
 	sum := 0.0
 	for i, a := range alpha {
-		if a <= 0.0 {
+		if !(a > 0.0) || math.IsInf(a, 1) {
 			err = fmt.Errorf("invalid parameter alpha %.2f", a)
 			return
 		}
